@@ -55,6 +55,7 @@ def _run_one(pid: str, spec: dict, workdir: str, idx: int, seed: int) -> dict:
         json.dump(spec, fh)
     timeout = spec.get("timeout_s", spec.get("budget_s", 30) * 4 + 90)
     env = _worker_env(spec.get("hashseed", seed + idx))
+    env.update(spec.get("env", {}))  # e.g. a worker whose filesystem encoding is not UTF-8 (C19)
     t0 = time.time()
     try:
         p = subprocess.run(
